@@ -260,10 +260,37 @@ package index
 //@   requires snapshot != nil
 //@   ensures [equivalent-snapshot-durable] (result0 && result1 == nil) ==> snpOnDisk[snapshot.epoch]
 
+// asyncFailures counts background operations that failed for a reason other than shutdown;
+// asyncErrorsFired counts calls of fireAsyncError. Every loop iteration keeps them level (C14).
+//@ ghost var asyncFailures int
+//@ ghost var asyncErrorsFired int
+//@ spec fn errClosed() ref
+
+//@ func Writer.fireAsyncError
+//@   props C14
+//@   modifies asyncErrorsFired
+//@   assume_frame
+//@   effect asyncErrorsFired == old(asyncErrorsFired) + 1
+
 //@ func Writer.persistSnapshot
 //@   props C02 C14
 //@   requires snapshot != nil
+//@   modifies asyncFailures, segOnDisk, snpOnDisk, openHandles
+//@   assume_frame
 //@   ensures [durable-on-success] result == nil ==> snpOnDisk[snapshot.epoch]
+//@   effect asyncFailures == old(asyncFailures) + ite(result != nil, 1, 0)
+
+//@ func Writer.planMergeAtSnapshot
+//@   props C14
+//@   modifies asyncFailures, segOnDisk, snpOnDisk, openHandles
+//@   assume_frame
+//@   effect asyncFailures == old(asyncFailures) + ite(result != nil, 1, 0)
+
+//@ func Writer.mergerLoop
+//@   props C14
+//@   requires asyncErrorsFired >= asyncFailures
+//@   loop 1
+//@     invariant [every-failed-merge-is-reported] asyncErrorsFired >= asyncFailures
 
 // The persister: a batch is acknowledged (its channel closed without an error having been sent, its
 // callback invoked) only when the snapshot taken together with those channels and callbacks
@@ -272,6 +299,9 @@ package index
 //@ func Writer.persisterLoop
 //@   props C02 C14
 //@   check nilfunc
+//@   requires asyncErrorsFired >= asyncFailures
+//@   loop 1
+//@     invariant [every-failed-persist-is-reported] asyncErrorsFired >= asyncFailures
 //@   at call close: assert [ack-only-after-durable-or-error-sent] errSent[ch] || (err == nil && ourSnapshot != nil && snpOnDisk[ourSnapshot.epoch])
 //@   at call funcvalue: assert [callback-only-after-durable] err == nil && ourSnapshot != nil && snpOnDisk[ourSnapshot.epoch]
 
